@@ -20,6 +20,7 @@ import LitexModel.DriverLib
   call spec <start> <len> <size> <burst> <k>          -> axiSpecAddr
   call legal <aw> <addr> <len> <size> <burst>         -> 0|1
   call bytes <start> <len> <size> <burst>             -> byte addresses touched, in order
+  call b2bcaps <axi2axilite|axi2wishbone>             -> "<incr> <wrap>": capability set the user passes to AXIBurst2Beat
   open sidereg|sidecombup|sidecombdown <ratio>        (data path + resp/id/user/dest, see LitexModel/Axi/WidthConvSide.lean)
   Byte-level calls (LitexModel/Axi/WidthConvMem.lean); a byte lane is coded as 2*value + strobe, a word list as the
   flat list of the lanes of all words:
@@ -91,6 +92,10 @@ def call (args : List String) : Option String :=
     match parseNats rest with
     | some [start, len, size, burst] => some (showNats (burstBytes start len size burst))
     | _ => none
+  | ["b2bcaps", user] =>
+    match userCaps user with
+    | some c => some s!"{b2n c.incr} {b2n c.wrap}"
+    | none => none
   | "writes" :: rest =>
     match parseNats rest with
     | some (bus :: addr :: len :: size :: burst :: lanes) =>
